@@ -500,3 +500,50 @@ def run_formatargs(prog, ctx=None):
                         break
             res.ob("%s:%s(%s)" % (f.qn, name, json.dumps(fm.get("s", ""))[:40]), not why, f, e.get("l", f.line), why)
     return res
+
+
+def run_idcap(prog, ctx=None):
+    """IDCAP: mpt_message_buf2id() refuses a header only when its significant bytes do not fit the id type: at every error
+    return the count of significant bytes (the variable the success path returns) is larger than sizeof(*iptr).  A test that
+    already refuses a count equal to the size rejects ids the writer (mpt_message_id2buf, IDFIT) accepts."""
+    res = Result("IDCAP")
+    f = prog.func("mpt_message_buf2id")
+    if f is None:
+        raise Broken("anchor missing: mpt_message_buf2id")
+    out = [p for p in f.params if f.T(p["t"]).get("k") == "ptr" and f.T(f.T(p["t"]).get("to")).get("k") == "int" and not f.T(f.T(p["t"]).get("to")).get("const")]
+    if not out:
+        raise Broken("mpt_message_buf2id: id destination parameter not found")
+    cap = f.T(f.T(out[0]["t"]).get("to")).get("sz") or 8
+    uid = None
+    for b, i, e in f.elements():
+        if e.get("k") == "ret" and e.get("e") is not None and cval(e["e"]) is None:
+            r = strip(e["e"], all_casts=True)
+            if r.get("k") == "ref" and r["d"].get("dk") == "local":
+                uid = r["d"]["id"]
+    if uid is None:
+        raise Broken("mpt_message_buf2id: count of significant bytes (returned local) not found")
+    an = Analysis(prog, f)
+    an.run()
+    n = 0
+    for (bid, idx), parts in sorted(an.pre_parts.items()):
+        el = f.blocks[bid].el[idx]
+        if el.get("k") != "ret" or el.get("e") is None:
+            continue
+        cv = cval(el["e"])
+        if cv is None or cv >= 0:
+            continue
+        lo = None
+        for st in parts.values():
+            u = st.get(("v", uid))
+            lo = None if u is None else (u.lo if lo is None else min(lo, u.lo))
+            if u is None:
+                lo = None
+                break
+        n += 1
+        ok = lo is not None and lo > cap
+        res.ob("mpt_message_buf2id:refusal line %s" % n, ok, f, el.get("l", f.line),
+               "" if ok else "the header is refused with a count of significant bytes that may be %s; an id of %d bytes fits the destination (only more than %d does not)" % (
+                   "unknown" if lo is None else lo, cap, cap), {"count_lower_bound": lo, "capacity": cap})
+    if not n:
+        raise Broken("mpt_message_buf2id: no refusal found")
+    return res
